@@ -1,7 +1,7 @@
 //! C10: the data vocabulary (keys once, id-less data shared) and data search against a scan.
 use crate::out::{guard, Out};
 use crate::rng::Rng;
-use crate::storegen::{apply, gen_history, gen_value, kid, new_store, value, value_sx, GenCfg};
+use crate::storegen::{apply, fix_to_f64, gen_history, gen_value, kid, new_store, value, value_sx, GenCfg, NEAR_ONE};
 use crate::sx::{a, b, l, nats, Sx};
 use stam::*;
 
@@ -25,14 +25,14 @@ pub fn dop<'a>(x: &Sx) -> DataOperator<'a> {
         7 => DataOperator::GreaterThanOrEqual(z as isize),
         8 => DataOperator::LessThan(z as isize),
         9 => DataOperator::LessThanOrEqual(z as isize),
-        10 => DataOperator::EqualsFloat(z as f64 / 1000.0),
-        11 => DataOperator::GreaterThanFloat(z as f64 / 1000.0),
-        12 => DataOperator::GreaterThanOrEqualFloat(z as f64 / 1000.0),
-        13 => DataOperator::LessThanFloat(z as f64 / 1000.0),
-        14 => DataOperator::LessThanOrEqualFloat(z as f64 / 1000.0),
+        10 => DataOperator::EqualsFloat(fix_to_f64(z)),
+        11 => DataOperator::GreaterThanFloat(fix_to_f64(z)),
+        12 => DataOperator::GreaterThanOrEqualFloat(fix_to_f64(z)),
+        13 => DataOperator::LessThanFloat(fix_to_f64(z)),
+        14 => DataOperator::LessThanOrEqualFloat(fix_to_f64(z)),
         15 => DataOperator::HasElement(string_of(x).into()),
         16 => DataOperator::HasElementInt(z as isize),
-        17 => DataOperator::HasElementFloat(z as f64 / 1000.0),
+        17 => DataOperator::HasElementFloat(fix_to_f64(z)),
         18 => DataOperator::Not(Box::new(dop(x.nth(1)))),
         19 => DataOperator::And(x.list()[1..].iter().map(dop).collect()),
         _ => DataOperator::Or(x.list()[1..].iter().map(dop).collect()),
@@ -144,10 +144,17 @@ fn observe_set(store: &AnnotationStore, h: usize, probes: &[Sx], values: &[Sx]) 
 
 impl Ctx {
     pub fn new() -> Self {
+        NEAR_ONE.store(true, std::sync::atomic::Ordering::Relaxed);
         Ctx {}
     }
     pub fn exec(&self, req: &Sx) -> (Sx, Vec<Sx>, bool) {
-        let mut store = new_store();
+        // variant 1: the configuration switch generate_ids is on (items without a public id get a
+        // generated one): the vocabulary rules and every search must be the same
+        let mut store = if req.list().len() > 3 && req.nth(3).int() == 1 {
+            AnnotationStore::new(Config::default().with_generate_ids(true).with_debug(false))
+        } else {
+            new_store()
+        };
         for op in req.nth(0).list() {
             let _ = apply(&mut store, op);
         }
@@ -188,7 +195,7 @@ pub fn gen_dop(rng: &mut Rng, depth: usize) -> Sx {
             l(v)
         }
         5..=9 | 16 => l(vec![a(tag), a(rng.range(-3, 3))]),
-        10..=14 | 17 => l(vec![a(tag), a(rng.range(-3, 3) * 500)]),
+        10..=14 | 17 => l(vec![a(tag), a(if rng.chance(1, 6) { if rng.chance(1, 2) { 999 } else { -999 } } else { rng.range(-3, 3) * 500 })]),
         18 => l(vec![a(18), gen_dop(rng, depth + 1)]),
         _ => {
             let mut v = vec![a(tag)];
@@ -220,11 +227,11 @@ pub fn generate(out: &mut Out, tier: &str, seed: u64) {
             probes.push(l(vec![key, op]));
         }
         let values: Vec<Sx> = (0..6).map(|_| gen_value(&mut rng, true, 0)).collect();
-        let req = l(vec![l(ops), l(probes), l(values)]);
+        let req = l(vec![l(ops), l(probes), l(values), a(if i % 3 == 2 { 1 } else { 0 })]);
         let (i2, o, nt) = ctx.exec(&req);
         out.case(&i2, &o, nt, &req);
     }
 }
 
-pub const RULE: &str = "seeded random histories as in C01 with typed values (null, bool, int -3..3, float on a 0.5 grid, strings incl. empty / non-BMP / numerals / 'true' / 'ON', nested lists), data with and without ids through datasets and through annotations, removals of data and keys (strict and not); after the history, per dataset: keys unique and id-less data never a second copy of an existing (key,value) (scan through the API), 24 probes (any key / key by id / key by handle, incl. unknown and removed keys) x random operator (all 21 variants incl. Not/And/Or nested to depth 2, Equals against bool/int/float/string, HasElement*) through find_data and test_data of the dataset and, for probes with a key, through AnnotationStore::find_data and store.data().filter_key_handle_value (which walk the data of all sets), and data_by_value for 3 keys x 6 values; then AnnotationStore::shrink_to_fit(true) and all of it again. One evaluation = one dataset record.";
+pub const RULE: &str = "seeded random histories as in C01 with typed values (null, bool, int -3..3, float on a 0.5 grid plus the doubles next to 1.0 and -1.0 (which an epsilon comparison would confuse with them), strings incl. empty / non-BMP / numerals / 'true' / 'ON', nested lists), data with and without ids through datasets and through annotations, removals of data and keys (strict and not); after the history, per dataset: keys unique and id-less data never a second copy of an existing (key,value) (scan through the API), 24 probes (any key / key by id / key by handle, incl. unknown and removed keys) x random operator (all 21 variants incl. Not/And/Or nested to depth 2, Equals against bool/int/float/string, HasElement*) through find_data and test_data of the dataset and, for probes with a key, through AnnotationStore::find_data and store.data().filter_key_handle_value (which walk the data of all sets), and data_by_value for 3 keys x 6 values; then AnnotationStore::shrink_to_fit(true) and all of it again; a third of the histories run on a store configured with generate_ids. One evaluation = one dataset record.";
 pub const EXHAUSTIVE: bool = false;
